@@ -136,4 +136,4 @@ Fixpoint read_chunks (fuel : nat) (n : nat) (content : bytes) : list bytes :=
            | chunk => chunk :: read_chunks f n (skipn n content)
            end
   end.
-Definition stream_chunks (n : nat) (content : bytes) : list bytes := read_chunks (S (List.length content)) n content.
+Definition stream_chunks (n : N) (content : bytes) : list bytes := read_chunks (S (List.length content)) (N.to_nat n) content.
